@@ -197,7 +197,11 @@ impl ReadBufPool {
             addr: ptr.cast::<u8>().as_ptr().addr() as u64,
             len: self.buf_size,
             bid: buf_id,
-            resv: 0,
+            // NOTE: the `resv` field of the first buffer overlaps with the
+            // ring tail, which the kernel can read at any time and only
+            // compares to its head. So we can't change it here, otherwise the
+            // kernel could use the buffers of old entries in the ring.
+            resv: if ring_idx == 0 { tail } else { 0 },
         });
         // NOTE: unpoisoned above.
         asan::poison_region(
